@@ -107,6 +107,7 @@ def build(hist, n, idmap=None):
         exp = [('any-return', None, 'harness')]
     reg = {}
     ctxvar = {}
+    stale = {}      # id -> handles (variables) of contexts which have been deleted already
     workers = []    # (var, ctx id, variant, alive)
     nw = 0
     nc = 0
@@ -130,6 +131,7 @@ def build(hist, n, idmap=None):
                 sc.append({'op': 'ctx_delete', 'var': ctxvar[i]})
                 exp.append(('ret', True, 'delete-fails'))
                 del reg[i]
+                stale.setdefault(i, []).append(ctxvar[i])
                 for w in workers:
                     if w[1] == i and w[3]:
                         w[3] = False
@@ -142,6 +144,13 @@ def build(hist, n, idmap=None):
             else:
                 sc.append({'op': 'ctx_delete_raw', 'id': uid(i)})
                 exp.append(('any-return', None, 'delete-of-unregistered-id-fails'))
+        elif a[0] == 'stale':
+            # the handle of a context which has been deleted is asked to go once more (the `finally` of its first owner): nothing
+            # happens, whatever has been registered under that id since
+            i = int(a[1])
+            for var in stale.get(i, []):
+                sc.append({'op': 'ctx_delete', 'var': var})
+                exp.append(('any-return', None, 'delete-through-a-stale-handle-fails'))
         elif a[0] == 'delete-unknown':
             sc.append({'op': 'ctx_delete_raw', 'id': uid('X')})
             exp.append(('any-return', None, 'delete-of-unknown-id-fails'))
@@ -242,6 +251,10 @@ def run(ctx):
     hs = list(histories(ids, d_full, d_max, maxw))
     # deleting a context whose workers are busy in calls which cannot be interrupted (always part of the quick tier too)
     hs += [('create:1:a', 'worker:1', 'worker:1', 'busy', 'delete:1'), ('create:1:a', 'worker:1', 'busy', 'delete:1', 'create:1:b', 'worker:1', 'use')]
+    # stale handles: a deleted context's handle used again, before and after its id has been registered anew
+    hs += [('create:1:a', 'delete:1', 'create:1:b', 'worker:1', 'use', 'stale:1', 'use', 'worker:1', 'use', 'create:1:a'),
+           ('create:1:a', 'worker:1', 'delete:1', 'stale:1', 'create:1:a', 'stale:1', 'worker:1', 'use'),
+           ('create:1:a', 'create:2:b', 'delete:1', 'worker:2', 'stale:1', 'use', 'create:1:b', 'delete:1', 'create:1:a', 'worker:1', 'stale:1', 'use')]
     jobs = []
     plan = []
     for n, h in enumerate(hs):
